@@ -79,6 +79,17 @@ def make_partition_preds(pv_local):
                 return {"ge": (a_elem, "GE"), "lt": (a_elem, "LT")}.get(nm)
             if c_elem is not None and a_pv:          # pv OP elem
                 return {"le": (c_elem, "GE"), "gt": (c_elem, "LT")}.get(nm)
+        if nm == "cmp" and tr.endswith("cmp::Ord") and len(t["args"]) == 2:
+            # three-way comparison (Ord is assumed lawful and consistent with the operators): Less/Equal/Greater → predicate
+            a, c = arg_local(t, 0), arg_local(t, 1)
+            if a is None or c is None:
+                return None
+            a_elem, c_elem = st.elem.get(a), st.elem.get(c)
+            a_pv, c_pv = st.refto.get(a) == pv_local, st.refto.get(c) == pv_local
+            if a_elem is not None and c_pv:          # elem.cmp(pv)
+                return (a_elem, {-1: "LT", 0: "GE", 1: "GE"})
+            if c_elem is not None and a_pv:          # pv.cmp(elem)
+                return (c_elem, {-1: "GE", 0: "GE", 1: "LT"})
         return None
     return pred, on_call
 
